@@ -185,6 +185,22 @@ theorem removeNotCriteria_eq (op : CmpOp) (f : Bytes) (x : Operand) :
     critOf (removeNotCriteria ⟨⟨opName op, f, x⟩⟩) = some (negLeaf op f x) := by
   cases op <;> simp [removeNotCriteria, negLeaf, opName, critOf, opOf, Id.run, id_pure]
 
+/-- the planner's range for a conjunction of two comparisons on one field, computed ENTIRELY by the translated source
+    (`unaryCriteriaToRange` twice, `Range.Intersect` once), is the model's `fieldRange` -/
+theorem source_conjunction_range (op1 op2 : CmpOp) (f : Bytes) (x y : Operand) :
+    (match unaryCriteriaToRange ⟨opName op1, f, x⟩, unaryCriteriaToRange ⟨opName op2, f, y⟩ with
+     | some r, some r2 => some (toModel (Range_Intersect r r2))
+     | some r, none => some (toModel r)
+     | none, some r2 => some (toModel r2)
+     | none, none => none)
+    = fieldRange f (.and (.cmp op1 f x) (.cmp op2 f y)) := by
+  have h1 := unaryCriteriaToRange_eq op1 f x
+  have h2 := unaryCriteriaToRange_eq op2 f y
+  simp only [fieldRange, if_true, mergeAnd]
+  rw [← h1, ← h2]
+  cases unaryCriteriaToRange ⟨opName op1, f, x⟩ <;> cases unaryCriteriaToRange ⟨opName op2, f, y⟩ <;>
+    simp [range_intersect_eq]
+
 variable (likeFn : LikeFn) (fnFam : FnFam)
 
 /-- `BinaryCriteria.Satisfy` / `NotCriteria.Satisfy` as the current source writes them, with each sub-criterion
